@@ -126,7 +126,11 @@ def plan_mutator(plan, msg_proc):
             except Exception as e:
                 # if we catch an exception,
                 # the current top plan is dead so pop it
-                plan_stack.pop()
+                failed_gen = plan_stack.pop()
+                # forget what was cached for it: the caches are keyed by id(), which may be
+                # handed to a later generator once this one is collected
+                tail_cache.pop(id(failed_gen), None)
+                tail_result_cache.pop(id(failed_gen), None)
                 if plan_stack:
                     # stash the exception and go to the top
                     exception = e
